@@ -560,12 +560,14 @@ func directed() []caseT {
 		cs = append(cs, caseT{Router: rt, Endpoint: eToken, Cfg: noPost, Reg: web(1, full()), Pres: presT{Kind: pBasic}, Grant: gCC, Tag: "defect=Fxx-C05-1"})
 	}
 	cs = append(cs, caseT{Router: 0, Endpoint: eToken, Cfg: noPost, Reg: web(1, full()), Pres: presT{Kind: pBasic}, Grant: gTE, Tag: "defect=Fxx-C05-1"})
-	// Fxx-C05-2: Provider router, device token: grant not registered; secret-registered native client without its secret;
+	// Fxx-C05-4 (recorded): Provider router, device token, grant not registered. Fxx-C05-2: secret-registered native client without its secret;
 	// client_secret_post client with AuthMethodPost off; assertion by a client_secret_basic client
-	cs = append(cs, caseT{Router: 0, Endpoint: eToken, Cfg: allOn, Reg: regT{Known: true, Meth: 3, App: 1, Grants: full(gDevice)}, Pres: presT{Kind: pIDOnly}, Grant: gDevice, Tag: "defect=Fxx-C05-2"})
+	cs = append(cs, caseT{Router: 0, Endpoint: eToken, Cfg: allOn, Reg: regT{Known: true, Meth: 3, App: 1, Grants: full(gDevice)}, Pres: presT{Kind: pIDOnly}, Grant: gDevice, Tag: "defect=Fxx-C05-4"})
 	cs = append(cs, caseT{Router: 0, Endpoint: eToken, Cfg: allOn, Reg: regT{Known: true, Meth: 0, App: 1, Grants: full()}, Pres: presT{Kind: pIDOnly}, Grant: gDevice, Tag: "defect=Fxx-C05-2"})
 	cs = append(cs, caseT{Router: 0, Endpoint: eToken, Cfg: noPost, Reg: web(1, full()), Pres: presT{Kind: pBasic}, Grant: gDevice, Tag: "defect=Fxx-C05-2"})
 	cs = append(cs, caseT{Router: 0, Endpoint: eToken, Cfg: allOn, Reg: regT{Known: true, Meth: 0, App: 0, Grants: full(), HasKey: true}, Pres: presT{Kind: pAssert}, Grant: gDevice, Tag: "defect=Fxx-C05-2"})
+	// Fxx-C05-3: LegacyServer router, token exchange by a public client that only names itself
+	cs = append(cs, caseT{Router: 1, Endpoint: eToken, Cfg: allOn, Reg: regT{Known: true, Meth: 3, App: 1, Grants: full()}, Pres: presT{Kind: pIDOnly}, Grant: gTE, Tag: "defect=Fxx-C05-3"})
 	return cs
 }
 
